@@ -99,6 +99,17 @@ pub fn replay_case(case: &Value, tally: &mut Tally) {
             }
             Value::Array(out)
         });
+        // the owning iterator: items, and its exact length after every step
+        let owned = guarded_val(|| {
+            let mut it = wm.clone().into_iter();
+            let mut lens = vec![it.len()];
+            let mut items = Vec::new();
+            while let Some(x) = it.next() { items.push(x); lens.push(it.len()); if lens.len() > vals.len() + 3 { break; } }
+            lens.push(it.size_hint().0);
+            json!([items, lens])
+        });
+        let exp_lens: Vec<usize> = (0..=vals.len()).rev().chain(std::iter::once(0)).collect();
+        tally.check(hkey(&[ckey, 6]), nt, &|| ctx("into_iter: items and exact length after every next()", &json!(0), 0), &json!([vals, exp_lens]), &owned);
         let fs = !vals.is_empty();
         tally.check(hkey(&[ckey, 5]), nt, &|| ctx("iter: next / next_back, then nth / nth_back(huge)", &json!(0), 0), &json!([[fs, true, true, 0, true, 0], [fs, true, true, 0, true, 0], [fs, true, true, 0, true, 0]]), &skipped);
         for i in 0..len {
